@@ -8,7 +8,7 @@ RULE = ('numbers, axes and rotation angles from the C01 domain (all grades, rema
         'non-trivial = owned op result differs from its operands')
 TRUSTED = TRUSTED_COMMON
 ASSUMPTIONS = ASSUME_COMMON
-S3_LEGS = ['reflection law dir = 2 alpha - t (mod 2pi) within 3e-10 and double reflection restoring the direction within 6e-10: predicates reflect_law, direction_close (angle-level, no libm); no theorem yet']
+S3_LEGS = ['reflection law (C12_reflect_law, C12_reflect_direction) and double reflection (C12_double_reflection) are theorems at the angle level (no libm); predicates reflect_law, direction_close re-decide them on each run within 3e-10 / 6e-10']
 
 def generate(rng, tier):
     n = 260 if tier == 'quick' else 8000
